@@ -586,8 +586,11 @@ def exec_xrfm(p, drv):
                   'fit': {'reg': p['reg'], 'iters': p['iters'], 'return_best_params': True, 'early_stop_rfm': False, 'verbose': False}}
     try:
         model = xRFM(rfm_params=rfm_params, max_leaf_size=p['max_leaf_size'], split_temperature=None,
-                     use_temperature_tuning=False, device='cpu', verbose=False, random_state=p['seed'] % 1000)
+                     use_temperature_tuning=False, device='cpu', verbose=False, random_state=p['seed'] % 1000,
+                     n_trees=p.get('n_trees', 1))
         model.fit(X, y, Xv, yv)
+        if len(model.trees) != 1:
+            raise RuntimeError('harness: this family expects a single built tree')
     except Exception as e:
         res['failures'].append({'signature': f'C04:fit-raises:{type(e).__name__}', 'detail': str(e)[:300]})
         return res
@@ -684,7 +687,11 @@ def gen_xrfm(r, n):
         cases.append({'family': 'xrfm-grads-multi-leaf' if multi else 'xrfm-grads-single-leaf', 'kernel': k,
                       'n': r.randint(leaf * 2 + 2, leaf * 6) if multi else r.randint(12, 40), 'd': r.randint(2, 4),
                       'max_leaf_size': leaf if multi else 1000, 'iters': r.randint(0, 2), 'diag': r.random() < 0.4,
-                      'reg': r.choice([1e-3, 1e-2]), 'n_query': 24, 'seed': r.randint(0, 2 ** 31 - 1)})
+                      'reg': r.choice([1e-3, 1e-2]), 'n_query': 24, 'seed': r.randint(0, 2 ** 31 - 1),
+                      # an ensemble cut short: several trees requested, the data fit one leaf, one tree is built
+                      'n_trees': 1 if multi else r.choice([1, 3])})
+    if not any(c['n_trees'] > 1 for c in cases) and cases:
+        cases[0]['n_trees'] = 3
     return cases
 
 
